@@ -575,7 +575,7 @@ func (session *HermesSession) Run(workingDir string, args []string, logID string
 			// ************ END OF SOWING MODULE ************
 			var STEPS float64
 			if WDT < g.DT.Num {
-				STEPS = g.DT.Num / WDT
+				STEPS = math.Round(g.DT.Num / WDT)
 			} else {
 				STEPS, WDT = 1, 1
 			}
